@@ -78,7 +78,7 @@ type State struct {
 	defers []*deferred
 	roRefs map[string]string // backing stores that are read-only copies of array values
 	ginit  map[*types.Var]bool
-	ctxDone map[string]bool // contexts (by expression) known to be done on this path
+	ctxDone map[string]string // contexts (by expression) -> Bool term: this path received from their Done channel
 }
 
 func (s *State) clone() *State {
@@ -139,7 +139,7 @@ func (s *State) clone() *State {
 		c.roRefs[k] = v
 	}
 	if s.ctxDone != nil {
-		c.ctxDone = map[string]bool{}
+		c.ctxDone = map[string]string{}
 		for k, v := range s.ctxDone {
 			c.ctxDone[k] = v
 		}
@@ -247,6 +247,15 @@ func (s *State) noteWrite(name string, ref ...string) {
 			set[r] = s.pc
 		}
 	}
+}
+
+// ctxDoneTerm: Bool term saying that this path received from the Done channel of the context
+// named by the expression.
+func (s *State) ctxDoneTerm(k string) string {
+	if t, ok := s.ctxDone[k]; ok {
+		return t
+	}
+	return "false"
 }
 
 func (s *State) heapHavoc(name, sort string) {
